@@ -611,3 +611,99 @@ Definition run_seg_hist (ty : segtype) (maxfrac : Z) (full omit : bool) (planes 
                  end) reads
           ++ [VB true])
   end.
+
+(* ---------------------------------------------------------------------- *)
+(* reads with options on a stored segmentation, shared by the run_* boundary *)
+(* functions below (the same list run_seg_hist maps over)                    *)
+(* ---------------------------------------------------------------------- *)
+Definition opt_read := (seg_mode * bool * (bool * bool) * list Z * region)%type.
+
+Definition reads_with_opts (ty : segtype) (maxfrac : Z) (described : list Z) (st : list stile)
+           (R C th tw : Z) (reads : list opt_read) : list val :=
+  map (fun rd : opt_read =>
+         match rd with (mode, via_volume, (rescale, skip), sel, (ai, (rs, re, cs, ce))) =>
+           if via_volume then
+             if match sel with [] => true | _ => false end then VErr "ValueError"
+             else vres_id (vol_region ai rs re cs ce R C
+                             (seg_read_opts ty maxfrac described st sel mode rescale skip R C th tw))
+           else vres_id (seg_read_opts ty maxfrac described st sel mode rescale skip
+                                       R C th tw ai rs re cs ce)
+         end) reads.
+
+(* ---------------------------------------------------------------------- *)
+(* FLOATING POINT masks stored as FRACTIONAL (sop.py _check_and_cast_pixel_  *)
+(* array float branch, _get_nonempty_tile_indices / _get_nonempty_plane_     *)
+(* indices, float branch of _get_segment_pixel_array).  A probability p      *)
+(* enters the model as the LEVEL q = around(p * MaximumFractionalValue) it   *)
+(* is stored as (float rounding is a premise of the correspondence run: the  *)
+(* harness generates p = (q + d) / maxfrac with |d| <= 1/4).  Values outside *)
+(* [0, 1] (levels outside [0, maxfrac]) and maxfrac > 255 are refused.       *)
+(* Emptiness of a tile - over all segments for the tile position, per        *)
+(* segment for the frame - is decided on the LEVELS, i.e. after quantisation *)
+(* with the segmentation's own maxfrac: a tile holding only low              *)
+(* probabilities that still quantise to a non-zero level is stored.          *)
+(* ---------------------------------------------------------------------- *)
+Definition levels_ok (maxfrac : Z) (planes : list plane) : bool :=
+  forallb (fun pl : plane => forallb (forallb (fun v => (0 <=? v) && (v <=? maxfrac))) (snd pl)) planes.
+
+Definition stored_frac (maxfrac : Z) (full omit : bool) (planes : list plane) (segs : list Z)
+           (R C th tw : Z) : res (list stile) :=
+  if (255 <? maxfrac) || negb (levels_ok maxfrac planes) then Err "ValueError"
+  else stored Fractional 1 full omit planes segs R C th tw.
+
+Definition run_seg_frac (maxfrac : Z) (full omit : bool) (planes : list plane)
+           (segs described : list Z) (R C th tw : Z) (reads : list opt_read) : val :=
+  match stored_frac maxfrac full omit planes segs R C th tw with
+  | Err k => VErr k
+  | Ok st => VL (VZ (Z.of_nat (length st)) ::
+                 reads_with_opts Fractional maxfrac described st R C th tw reads)
+  end.
+
+(* ---------------------------------------------------------------------- *)
+(* frames at CALLER-CHOSEN positions: Segmentation(tile_pixel_array=False,   *)
+(* plane_positions=[...]) on a tiled source - any offsets, on the tile grid  *)
+(* or not, overlapping or with gaps (sop.py 1164-1240, 1287-1317, 1501-1557; *)
+(* _add_slide_coordinate_metadata 1962-2010)                                 *)
+(* ---------------------------------------------------------------------- *)
+(* a frame as passed: 1-based position and one th x tw tile per plane
+   (LABELMAP: the single plane 0) *)
+Record fframe := mkF { f_rp : Z; f_cp : Z; f_planes : list plane }.
+
+Definition frame_nonempty (f : fframe) : bool :=
+  existsb (fun pl : plane => any_nonzero (snd pl)) (f_planes f).
+
+(* _get_nonempty_plane_indices, then the per-segment omission of the main loop *)
+Definition seg_store_frames (ty : segtype) (maxfrac : Z) (omit : bool) (frames : list fframe) : list stile :=
+  let ne := filter frame_nonempty frames in
+  let omit' := omit && negb (match ne with [] => true | _ => false end) in
+  let included := if omit' then ne else frames in
+  flat_map (fun f : fframe =>
+    flat_map (fun pl : plane =>
+      let T := snd pl in
+      match ty with
+      | Labelmap => [mkS (fst pl) (mkT (f_rp f) (f_cp f) T)]
+      | Binary => if omit' && negb (any_nonzero T) then []
+                  else [mkS (fst pl) (mkT (f_rp f) (f_cp f) T)]
+      | Fractional => if omit' && negb (any_nonzero T) then []
+                      else [mkS (fst pl) (mkT (f_rp f) (f_cp f) (scale_tile maxfrac T))]
+      end) (f_planes f)) included.
+
+(* TotalPixelMatrixRows / Columns written by _add_slide_coordinate_metadata when
+   spatial locations are not preserved and no matrix size is given (since fix D121):
+       rows = row_offsets.max() + Rows - 1;  columns = col_offsets.max() + Columns - 1
+   Positions are (row, column). *)
+Definition declared_free (th tw : Z) (ps : list (Z * Z)) : Z * Z :=
+  match ps with
+  | [] => (0, 0)
+  | p :: r => (fold_left Z.max (map fst r) (fst p) + th - 1,
+               fold_left Z.max (map snd r) (snd p) + tw - 1)
+  end.
+
+(* construct from frames; observe the number of stored frames, the declared
+   matrix size, and reads addressed against the DECLARED size *)
+Definition run_seg_free (ty : segtype) (maxfrac : Z) (omit : bool) (frames : list fframe)
+           (described : list Z) (th tw : Z) (reads : list opt_read) : val :=
+  let st := seg_store_frames ty maxfrac omit frames in
+  let d := declared_free th tw (map (fun f => (f_rp f, f_cp f)) frames) in
+  VL (VZ (Z.of_nat (length st)) :: VZ (fst d) :: VZ (snd d) ::
+      reads_with_opts ty maxfrac described st (fst d) (snd d) th tw reads).
